@@ -16,9 +16,11 @@
     false for that code.
 -/
 import Vita.C10.Lemmas
+import Vita.C10.LemmasInputs
 import Vita.C10.GenSites
 import Vita.C10.Reviewed
 import Vita.C10.Loops
+import Vita.C09.Props
 
 namespace Vita.C10
 open Vita.C09 Vita.C10.Sites
@@ -134,6 +136,114 @@ theorem read_total_old_false : ¬ ReadTotalCsv { guards := false } ∧ ¬ ReadTo
     rw [← readXrff_eq_H] at this
     exact this .rotateXrff (old_rotate_xrff_faults o)
 
+/-! ### `is_valid` itself, and the problem built from a stream -/
+
+/-- **is_valid_spec.**  The consistency check, characterised (so that "passes its own consistency check" of
+    the property is a statement about the dataframe, not about a function): `is_valid()` answers `true` exactly
+    for an empty dataframe, or one with no class or at least two, **all examples with the same number of inputs**,
+    every label a class id in range when there are classes, and no column without a domain that has states.  In
+    particular a dataframe whose examples have different numbers of inputs never passes – whatever the kind of
+    problem (the scan of the examples is not restricted to classification tasks). -/
+theorem is_valid_spec (df : DF F) : isValid df = .ok true ↔
+    (df.examples = [] ∨
+      (df.classes.length ≠ 1 ∧ EqualInputs df ∧ LabelsOK df ∧ colsValid df.cols = true)) := by
+  unfold isValid
+  cases hex : df.examples with
+  | nil => simp [pure, Except.pure]
+  | cons e0 es =>
+    simp only [reduceCtorEq, false_or]
+    by_cases h1 : df.classes.length = 1
+    · simp [h1, pure, Except.pure]
+    · simp only [h1, if_false, ne_eq, not_false_eq_true, true_and]
+      have hspec := examplesValid_spec df.classes.length e0.input.length (e0 :: es)
+      have heq : EqualInputs df ↔ ∀ e ∈ e0 :: es, e.input.length = e0.input.length := by
+        unfold EqualInputs
+        rw [hex]
+        constructor
+        · intro h e he; exact h e he e0 (by simp)
+        · intro h e he e' he'; rw [h e he, h e' he']
+      have hlab : LabelsOK df ↔ (df.classes.length = 0 ∨
+          ∀ e ∈ e0 :: es, ∃ l : Int, e.output = .int l ∧ 0 ≤ l ∧ l < df.classes.length) := by
+        unfold LabelsOK; rw [hex]
+      rw [heq, hlab]
+      cases hv : examplesValid df.classes.length e0.input.length (e0 :: es) with
+      | error err =>
+        simp only [bind, Except.bind, reduceCtorEq, false_iff]
+        intro h
+        have := hspec.2 ⟨h.1, h.2.1⟩
+        rw [hv] at this; cases this
+      | ok b =>
+        simp only [bind, Except.bind, pure, Except.pure, Except.ok.injEq, Bool.and_eq_true]
+        rw [hv] at hspec
+        simp only [Except.ok.injEq] at hspec
+        constructor
+        · rintro ⟨hb, hc⟩
+          have := hspec.1 hb
+          exact ⟨this.1, this.2, hc⟩
+        · rintro ⟨ha, hb, hc⟩
+          exact ⟨hspec.2 ⟨ha, hb⟩, hc⟩
+
+/-- what a problem set up from a dataset guarantees to the evolution that runs on it -/
+def ProblemOK (df : DF F) (syms : List TermSym) : Prop :=
+  Valid df ∧ df.examples ≠ [] ∧ EqualInputs df ∧
+  ∀ v, TermSym.var v ∈ syms → ∀ e ∈ df.examples, ∃ x, evalVar v e = .ok x
+
+/-- **src_problem_total (stream).**  `src_problem(std::istream &, typing)` – `read_csv` with sniffed dialect,
+    then `category_set` and `setup_terminals` – for **every byte string**, both typings, every number oracle:
+    never an out-of-bounds access; and when it returns, the training set is valid, not empty, with equally long
+    input vectors, and **every variable it inserted reads inside the input vector of every example**
+    (`src_interpreter::fetch_var` in range: one input per column that has a domain, one variable per such column). -/
+theorem src_problem_total (o : NumOracle F) (strong : Bool) (bytes : Str) :
+    NoFault (srcProblemStream { guards := true } o strong bytes) ∧
+    ∀ df syms, srcProblemStream { guards := true } o strong bytes = .ok (df, syms) → ProblemOK df syms := by
+  constructor
+  · exact noFault_bind (read_total_csv F o {} bytes).1
+      (fun df => noFault_bind (setupSymbols_noFault _ _ _) (fun syms => noFault_pure _))
+  · intro df syms h
+    unfold srcProblemStream at h
+    obtain ⟨df', hr, h⟩ := bind_ok h
+    obtain ⟨syms', hs, h⟩ := bind_ok h
+    simp only [pure, Except.pure, Except.ok.injEq, Prod.mk.injEq] at h
+    obtain ⟨rfl, rfl⟩ := h
+    obtain ⟨h1, h2, h3⟩ := (read_total_csv F o {} bytes).2 df' hr
+    refine ⟨h1, h2, h3, ?_⟩
+    intro v hv e he
+    exact vars_in_range strong df'.cols syms'
+      (fun c hc => readCsv_statesStr _ o _ bytes df' hr c (List.mem_of_mem_tail hc)) hs e
+      (readCsv_inputs o {} bytes df' hr e he) v hv
+
+/-- **src_problem_total (file)**: the same for `src_problem(path, typing)`, whatever the extension of the name
+    (XRFF or CSV); an XRFF file may hold no instance at all (then there is nothing a variable could read) -/
+theorem src_problem_file_total (o : NumOracle F) (strong : Bool) (ext bytes : Str) (doc : XDoc) :
+    NoFault (srcProblemFile { guards := true } o strong ext bytes doc) ∧
+    ∀ df syms, srcProblemFile { guards := true } o strong ext bytes doc = .ok (df, syms) →
+      Valid df ∧ EqualInputs df ∧
+      ∀ v, TermSym.var v ∈ syms → ∀ e ∈ df.examples, ∃ x, evalVar v e = .ok x := by
+  constructor
+  · exact noFault_bind (read_total_file F o {} ext bytes doc).1
+      (fun r => noFault_bind (setupSymbols_noFault _ _ _) (fun syms => noFault_pure _))
+  · intro df syms h
+    unfold srcProblemFile at h
+    obtain ⟨r, hr, h⟩ := bind_ok h
+    obtain ⟨syms', hs, h⟩ := bind_ok h
+    simp only [pure, Except.pure, Except.ok.injEq, Prod.mk.injEq] at h
+    obtain ⟨rfl, rfl⟩ := h
+    obtain ⟨df', n⟩ := r
+    obtain ⟨h1, h3, _⟩ := (read_total_file F o {} ext bytes doc).2 df' n hr
+    refine ⟨h1, h3, ?_⟩
+    intro v hv e he
+    unfold readFile at hr
+    split at hr
+    · exact vars_in_range strong df'.cols syms'
+        (fun c hc => readXrffH_statesStr _ o _ doc df' n hr c (List.mem_of_mem_tail hc)) hs e
+        (readXrffH_inputs o _ doc df' n hr e he) v hv
+    · obtain ⟨df'', hr', hr⟩ := bind_ok hr
+      simp only [pure, Except.pure, Except.ok.injEq, Prod.mk.injEq] at hr
+      obtain ⟨rfl, _⟩ := hr
+      exact vars_in_range strong df''.cols syms'
+        (fun c hc => readCsv_statesStr _ o _ bytes df'' hr' c (List.mem_of_mem_tail hc)) hs e
+        (readCsv_inputs o {} bytes df'' hr' e he) v hv
+
 /-! ### every access site of the C++ readers (extracted by tools/translate_reader.py on every run) -/
 
 /-- **sites_safe.**  For every subscript / `front` / `back` / iterator-arithmetic / iterator-, pointer- and
@@ -213,5 +323,46 @@ example : ∃ df : DF Nat, readCsv { guards := true }
     readRecord, toExample, outputOf, inputsGo, convert, encode, lookup, addState, setInsert, isValid,
     examplesValid, label, colsValid,
     bind, Except.bind, pure, Except.pure, throw, throwThe, MonadExceptOf.throw]
+
+/-- non-vacuity of `src_problem_total`: the four-line file `x,y / 1,2 / 3,4` (dialect left to the sniffer, as the
+    constructor does) yields a problem: two examples, one variable `y` that reads input 0 -/
+example : ∃ (df : DF Nat) (syms : List TermSym),
+    srcProblemStream { guards := true } digitOracle false
+      (renderPlain ',' [["x".toList, "y".toList], ["1".toList, "2".toList], ["3".toList, "4".toList]]) = .ok (df, syms) ∧
+    df.examples.length = 2 ∧ syms = [.var { name := ['y'], var := 0, category := some 0 }] := by
+  have hu : Unambiguous digitOracle ',' (some ["x".toList, "y".toList])
+      [["1".toList, "2".toList], ["3".toList, "4".toList]] :=
+    { delim := by simp [preferred]
+      width := ⟨2, by omega, by intro r hr; simp at hr; rcases hr with rfl | rfl <;> rfl,
+        by intro h hh; simp at hh; subst hh; rfl⟩
+      two := by simp
+      data := by
+        intro r hr c hc
+        simp at hr
+        rcases hr with rfl | rfl <;> simp at hc <;> rcases hc with rfl | rfl <;>
+          simp [DataCell, PlainCell, preferred, isBlank, isSpace, isNumber, trim, digitOracle, isAlpha, isUpper, isLower] <;>
+          decide
+      head := by
+        intro h hh c hc
+        simp at hh
+        subst hh
+        simp at hc
+        rcases hc with rfl | rfl <;>
+          simp [HeadCell, PlainCell, preferred, isBlank, isSpace, isNumber, trim, digitOracle] <;> decide }
+  have hs := sniffed_read_eq_explicit { guards := true } digitOracle ',' (some ["x".toList, "y".toList])
+    [["1".toList, "2".toList], ["3".toList, "4".toList]] hu {} (by decide) ⟨rfl, rfl⟩
+  simp only [Option.toList_some, List.singleton_append] at hs
+  refine ⟨{ cols := [{ name := ['x'], dom := .dbl }, { name := ['y'], dom := .dbl }],
+            examples := [{ input := [.dbl 2], output := .dbl 1 }, { input := [.dbl 4], output := .dbl 3 }] },
+          _, ?_, rfl, rfl⟩
+  have hbytes : renderPlain ',' [["x".toList, "y".toList], ["1".toList, "2".toList], ["3".toList, "4".toList]] =
+      "x,y\n1,2\n3,4\n".toList := by decide
+  unfold srcProblemStream
+  rw [hs, hbytes]
+  simp [readCsv, resolveDialect, splitLines, splitLinesAux, records, isBlank,
+    isSpace, parseLine, go, addField, readCsvRecs, List.foldlM, csvStep, csvProceed, rotate?, build, buildGo, setDomain,
+    trim, isNumber, readRecord, toExample, outputOf, inputsGo, convert, encode, lookup, addState, setInsert, isValid,
+    examplesValid, label, colsValid, digitOracle, setupSymbols, setupSymsGo, stateConsts, categories, categoriesGo,
+    varName, bind, Except.bind, pure, Except.pure]
 
 end Vita.C10
